@@ -223,7 +223,15 @@ func init() {
 			fr.i.side["nats-published"] = append(lst, a[1])
 			return nilError
 		},
-		"(*" + natsPkg + ".Conn).IsClosed": func(fr *frame, a []value) value { return false },
+		"(*" + natsPkg + ".Conn).IsClosed": func(fr *frame, a []value) value {
+			b, _ := fr.i.side["nats-conn-closed"].(bool)
+			return b
+		},
+		"(*" + natsPkg + ".Conn).LastError": func(fr *frame, a []value) value { return nilError },
+		zz + "NatsSetClosed": func(fr *frame, a []value) value {
+			fr.i.side["nats-conn-closed"] = a[0].(bool)
+			return nil
+		},
 		"(*" + natsPkg + ".Conn).Close":    func(fr *frame, a []value) value { return nil },
 		"(*" + natsPkg + ".Subscription).Unsubscribe": func(fr *frame, a []value) value {
 			if e, ok := fr.i.side["nats-unsubscribe-error"]; ok && e != nil {
